@@ -432,9 +432,10 @@ prop('C20', level='other', units=[PL + 'plot_cyclepoints_array', PL + 'plot_cycl
                  'inclusive) and ONLY on samples of such cycles (loop invariant over the bursting rows, lifted to the whole table '
                  'through the row selection); the last parameter panel is drawn from the same table with its own column and '
                  'threshold. The zscore, the figure / axes and the drawing routines are external (logged, nothing assumed). '
-                 'NOT covered by a typed case: the extra keyword arguments (labels, colours) that the summary passes on to the '
-                 'cyclepoint and parameter plots - those units are verified for calls without extra keywords. '
-                 'Bounded only: x-limits off the grid, the burst summary and the parameter panels under x-limits, interp=False, the floating-point side of the grid (D12 - D14), plot_burst_detect_summary / '
+                 'The extra keyword arguments of the plot functions (xlabel, ylabel, colors / color, figsize) are part of every typed '
+                 'case, each present or absent (colours as a pair of opaque values): they are popped and handed on without touching '
+                 'the marker series. '
+                 'Bounded only: x-limits off the grid, the burst summary and the parameter panels under x-limits, interp=False, other extra keywords, the floating-point side of the grid (D12 - D14), plot_burst_detect_summary / '
                  '_param / Bycycle.plot (burst mask, parameter panels, threshold lines): the arguments handed to the drawing routines '
                  'are intercepted on corpus tables x sample-grid windows incl. low-truncating grid points and windows on cycle '
                  'boundaries; rendered artists are not inspected.')
